@@ -67,9 +67,21 @@ Theorem C17_get_one_term_exact : forall (content : Merkle.hash -> bytes) F s x c
   get_one_term cached infos (fetched_range content x) (sg_start s) (sg_end s) (lenN (term_of content F s)) = Some (term_of content F s).
 Proof. exact get_one_term_exact. Qed.
 
+(* the error branches of get_one_term: an inverted term range is refused before anything is looked at, and without a cache hit a
+   term that no fetch-info entry covers is an error -- no download is started and no bytes are made up *)
+Theorem C17_inverted_term_refused : forall cached infos download ts te ul,
+  te < ts -> get_one_term cached infos download ts te ul = None.
+Proof. exact get_one_term_inverted_refused. Qed.
+Theorem C17_uncovered_term_refused : forall infos download ts te ul,
+  (forall r, In r infos -> ~ (fst r <= ts /\ te <= snd r)) ->
+  get_one_term None infos download ts te ul = None.
+Proof. exact get_one_term_uncovered_refused. Qed.
+
 Print Assumptions C17_trim_to_term_exact.
 Print Assumptions C17_sequential_writer_exact.
 Print Assumptions C17_parallel_eq_sequential.
 Print Assumptions C17_completion_order_irrelevant.
 Print Assumptions C17_term_from_fetch_range.
 Print Assumptions C17_get_one_term_exact.
+Print Assumptions C17_inverted_term_refused.
+Print Assumptions C17_uncovered_term_refused.
